@@ -152,6 +152,9 @@ func renderGb(ref string, feats []vfeat) []byte {
 	return renderGenbank(ref, gf)
 }
 
+// gffPlain: no ##FASTA section (the last line of the file is a feature row) and Name as the last attribute of every row.
+var gffPlain bool
+
 func renderGff(ref string, feats []vfeat) []byte {
 	var b bytes.Buffer
 	b.WriteString("##gff-version 3\n")
@@ -211,16 +214,24 @@ func renderGff(ref string, feats []vfeat) []byte {
 			if f.kind == "CDS" {
 				attrs += ";Parent=gene" + itoa(fi)
 			}
+			// application attributes (lower-case tags are free for applications, GFF3 reserves the capitalised ones only)
+			app := ";Note=synthetic,feature;name=an application tag;id=row" + itoa(i)
+			if gffPlain {
+				// Name as the last attribute of the row (whatever ends the line is next to it)
+				attrs += app
+				app = ""
+			}
 			if f.named {
 				attrs += ";Name=" + f.name
 			}
-			// application attributes (lower-case tags are free for applications, GFF3 reserves the capitalised ones only)
-			attrs += ";Note=synthetic,feature;name=an application tag;id=row" + itoa(i)
+			attrs += app
 			ph := itoa(phases[i])
 			fmt.Fprintf(&b, "ref\t.\t%s\t%d\t%d\t.\t%s\t%s\t%s\n", typ, f.segs[i][0], f.segs[i][1], strand, ph, attrs)
 		}
 	}
-	b.WriteString("##FASTA\n>ref\n" + ref + "\n")
+	if !gffPlain {
+		b.WriteString("##FASTA\n>ref\n" + ref + "\n")
+	}
 	return b.Bytes()
 }
 
@@ -404,6 +415,21 @@ func runVarFam(vec map[string]interface{}) map[string]interface{} {
 	feats := parseFeats(gList(vec, "feats"))
 	gb := renderGb(ref, feats)
 	gff := renderGff(ref, feats)
+	gffP := gff // the form given to the runs that do not take the reference from the annotation
+	if gBool(vec, "gffplain") {
+		gffPlain = true
+		gffP = renderGff(ref, feats)
+		gffPlain = false
+	}
+	// the text layout of the annotation file must not matter: CRLF line ends, an unterminated last line
+	if gBool(vec, "annocrlf") {
+		gff = bytes.ReplaceAll(gff, []byte("\n"), []byte("\r\n"))
+		gffP = bytes.ReplaceAll(gffP, []byte("\n"), []byte("\r\n"))
+		gb = bytes.ReplaceAll(gb, []byte("\n"), []byte("\r\n"))
+	}
+	if gBool(vec, "annononl") {
+		gff, gb, gffP = chopNl(gff, true), chopNl(gb, true), chopNl(gffP, true)
+	}
 	wrap, crlf := gIntD(vec, "wrap", 0), gBool(vec, "crlf")
 	mq := qs
 	if gBool(vec, "lowq") {
@@ -438,6 +464,9 @@ func runVarFam(vec map[string]interface{}) map[string]interface{} {
 		switch gStr(r, "anno") {
 		case "gff":
 			anno, suffix = gff, "gff"
+			if !strings.HasSuffix(gStr(r, "cmd"), "annoref") {
+				anno = gffP
+			}
 		case "gffs":
 			anno, suffix = sortGffRows(gff), "gff"
 		}
@@ -583,6 +612,8 @@ type cliRes struct {
 	timeout bool
 }
 
+var pipedRuns int
+
 // cliVariants runs the binary with the alignment on standard input (reference first).
 func cliVariants(msa, anno []byte, suffix string, s, e int, agg bool, thr int, app bool, t int, stdin bool) cliRes {
 	work := os.Getenv("VERIF_WORK")
@@ -609,7 +640,14 @@ func cliVariants(msa, anno []byte, suffix string, s, e int, agg bool, thr int, a
 	if app {
 		args = append(args, "--append-snps")
 	}
-	r := runBinary(gofastaBin(), msa, nil, callDeadline, args...)
+	// every other piped run holds Main back in front of the select that takes the reference record (hook; the gate gives up
+	// after 100 ms), so that the reader has buffered the whole alignment and is offering "done" when the select runs (F18)
+	var env []string
+	pipedRuns++
+	if pipedRuns%2 == 0 {
+		env = []string{"VHOOK_GATE=variants.Variants.first:99,0", "VHOOK_GATE_MS=100"}
+	}
+	r := runBinary(gofastaBin(), msa, env, callDeadline, args...)
 	res := cliRes{out: r.Stdout, timeout: r.Timeout}
 	if r.Exit != 0 {
 		res.err = fmt.Errorf("exit %d: %s", r.Exit, firstLine(r.Stderr))
